@@ -58,6 +58,19 @@ def diag_straddle(rng, symm="default"):
     return "diag-straddle", s + "symm %s\nbeta %s\n" % (symm, scen.f(rng.choice([1, 4, 10]))), 4, {"straddle": d}
 
 
+def near_degenerate(rng, symm=None):
+    """two equal levels coupled by a tiny hopping t: single-particle levels e-t, e+t, i.e. energy differences 2t (and 4t) that
+    are reached by the SAME operator, so that poles 2t apart meet in one term list. t = 2e-9, 3e-9 (2t below 1e-8),
+    6e-9, 1.5e-8 (2t above 1e-8): the region the separation hypothesis of chi_termlist_no_loss excludes."""
+    t = rng.choice([3e-9, 2e-9, 6e-9, 1.5e-8, 3e-9])
+    e = rng.choice([0.5, -0.25, 0])
+    s = "site A 1 2\nsite B 1 2\naddLevel A %s\naddLevel B %s\naddHopping4 A B %r\n" % (scen.f(e), scen.f(e), t)
+    if rng.random() < 0.5:
+        s += "addCoulombS A 1 0\n"
+    sy = symm or rng.choice(["default", "ignore"])
+    return "near-degenerate", s + "symm %s\nbeta %s\n" % (sy, scen.f(rng.choice([1, 4]))), 4, {"straddle": 2 * t}
+
+
 def half_filled_atom(rng, symm="default"):
     U = rng.choice([1, 2, 4])
     return "hubbard-atom-half-filling", "site A 1 2\naddCoulombS A %s %s\nsymm %s\nbeta %s\n" % (
@@ -73,9 +86,10 @@ def complex_two_site(rng, symm="default"):
     return "complex-two-site", s + "symm %s\nbeta %s\n" % (symm, scen.f(rng.choice([1, 4]))), 4, {}
 
 
-QUICK_FAMILIES = [half_filled_atom, scen.hubbard_atom, scen.free_degenerate, scen.atomic_limit, diag_straddle, diag_straddle,
+QUICK_FAMILIES = [half_filled_atom, scen.hubbard_atom, scen.free_degenerate, scen.atomic_limit, diag_straddle, near_degenerate, near_degenerate,
                   scen.two_site, scen.anderson]
-THOROUGH_EXTRA = [scen.kanamori, scen.exchange, scen.two_site, scen.free_degenerate, scen.atomic_limit, diag_straddle, diag_straddle]
+THOROUGH_EXTRA = [scen.kanamori, scen.exchange, scen.two_site, scen.free_degenerate, scen.atomic_limit, diag_straddle, diag_straddle,
+                  near_degenerate, near_degenerate, near_degenerate]
 
 
 def quads_for(rng, M, nq):
@@ -125,6 +139,8 @@ def parse_parts(lines):
             cur["parts"][int(t[1])]["rt"].append(t[2:])
         elif t[0] == "REFUSED":
             cur["refused"] += int(t[2])
+        elif t[0] == "SEP":
+            cur["sep"] = cur.get("sep", True) and t[2] == "1"
         elif t[0] == "GDEP":
             cur["flags"].add("GDEP")
         elif t[0] == "ENDPARTS":
@@ -248,6 +264,7 @@ def check_scenario(chk, s, h, d, first):
     or_chiz = [t for t in s.oracle if t[0] == "CHIZ"]
     straddle = "straddle" in s.info
     nt = len(s.triples)
+    seps = {}
     for qi, qd in enumerate(s.quads):
         ipat = idxpat(qd)
         # ---- term lists -------------------------------------------------------------------------------------
@@ -259,13 +276,21 @@ def check_scenario(chk, s, h, d, first):
         nterms = sum(len(p["nr"]) + len(p["rt"]) for p in ip[qd]["parts"])
         merged = sum(1 for p in ip[qd]["parts"] for t in p["nr"] + p["rt"] if int(t[-1]) > 1)
         chk.case("T %s %s %r" % (s.fam, s.text, qd),
-                 "terms fam=%s idx=%s van=%d merged=%s refused=%d" % (s.fam, ipat, van, "yes" if merged else "no", mp[qd]["refused"]),
+                 "terms fam=%s idx=%s van=%d merged=%s sep=%s refused=%s" % (s.fam, ipat, van, "yes" if merged else "no",
+                                                                               "yes" if mp[qd].get("sep", True) else "no", "yes" if mp[qd]["refused"] else "no"),
                  nontrivial=nterms > 0,
                  sample={"family": s.fam, "quad": qd, "parts": len(ip[qd]["parts"]), "terms": nterms, "merged_terms": merged} if qi == 0 else None)
         if "GDEP" in mp[qd]["flags"]:
             chk.tie_broken("model depends on the value read past the end of a sparse slice", "%s %r" % (s.fam, qd))
-        if diff and "terms" not in first:
+        sep = mp[qd].get("sep", True)
+        seps[qd] = sep
+        # Outside the separation hypothesis of chi_termlist_no_loss the comparator of the term lists is not a strict weak
+        # order on the terms that occur; what std::set does then depends on the shape of its tree, which the model (a
+        # sorted list) does not describe.  There the implementation is judged by the oracle alone.
+        if diff and sep and "terms" not in first:
             first["terms"] = (s, qd, diff)
+        if diff and not sep:
+            chk.extra["termlists_differ_outside_separation"] = chk.extra.get("termlists_differ_outside_separation", 0) + 1
         if mp[qd]["refused"] and "refused" not in first:
             first["refused"] = (s, qd, mp[qd]["refused"])
         # ---- scales -----------------------------------------------------------------------------------------
@@ -290,14 +315,16 @@ def check_scenario(chk, s, h, d, first):
                          "value fam=%s idx=%s res=%s purge=%d van=%d" % (s.fam, ipat, rp, clear, van),
                          nontrivial=(abs(orc) > 1e-9 * max(s0, 1e-30)) or van,
                          sample={"family": s.fam, "quad": qd, "triple": tr, "impl": str(ond), "oracle": str(orc), "tol": tol} if (qi == 0 and f == 1 and clear == 0) else None)
-                if abs(ond - orc) > tol and "value" not in first:
-                    first["value"] = (s, qd, tr, ond, orc, tol)
+                if abs(ond - orc) > tol:
+                    kind = "value" if seps.get(qd, True) else "value-nosep"
+                    if kind not in first:
+                        first[kind] = (s, qd, tr, ond, orc, tol)
                 if tab is None:
                     if "tablelen" not in first:
                         first["tablelen"] = (s, qd, tr, clear, tsize, van)
                 elif abs(tab - ond) > 1e-12 * s0 + 1e-300 and "table" not in first:
                     first["table"] = (s, qd, tr, clear, tab, ond)
-                if mod is not None and abs(mod - ond) > 1e-12 * s0 + 1e-300 and "modelvalue" not in first:
+                if mod is not None and seps.get(qd, True) and abs(mod - ond) > 1e-12 * s0 + 1e-300 and "modelvalue" not in first:
                     first["modelvalue"] = (s, qd, tr, mod, ond)
             if tsize != nt and "tablelen" not in first:
                 first["tablelen"] = (s, qd, s.triples[0], clear, tsize, van)
@@ -313,9 +340,11 @@ def check_scenario(chk, s, h, d, first):
             mod = complex(HX(tm[5 + 2 * f]), HX(tm[6 + 2 * f]))
             chk.case("Z %s %s %r %d" % (s.fam, s.text, qd, f), "value fam=%s idx=%s res=off-axis van=%d" % (s.fam, ipat, van),
                      nontrivial=abs(orc) > 1e-9 * max(s0, 1e-30))
-            if abs(ond - orc) > tol and "value" not in first:
-                first["value"] = (s, qd, ("z",) + tuple(s.offaxis[3 * f:3 * f + 3]), ond, orc, tol)
-            if abs(mod - ond) > 1e-12 * s0 + 1e-300 and "modelvalue" not in first:
+            if abs(ond - orc) > tol:
+                kind = "value" if seps.get(qd, True) else "value-nosep"
+                if kind not in first:
+                    first[kind] = (s, qd, ("z",) + tuple(s.offaxis[3 * f:3 * f + 3]), ond, orc, tol)
+            if seps.get(qd, True) and abs(mod - ond) > 1e-12 * s0 + 1e-300 and "modelvalue" not in first:
                 first["modelvalue"] = (s, qd, ("z", f), mod, ond)
     # ---- empty frequency list -------------------------------------------------------------------------------
     ti, tm = impl_chi[-1], mod_chi[-1]
@@ -374,6 +403,10 @@ def shrink_value(s, qd, tr, h, d):
 
 
 VANISHING_MIN = ("hubbard-atom", "site A 1 2\naddCoulombS A 1 -0.5\nbeta 10\n", (0, 0, 1, 1))
+VANISHING_KEY = "table-length: vanishing component, model=hubbard-atom quad=0011 nfreq=1"
+NEARDEG_MIN = ("near-degenerate", "site A 1 2\nsite B 1 2\naddLevel A 0.5\naddLevel B 0.5\naddHopping4 A B 3e-09\naddCoulombS A 1 0\nsymm ignore\nbeta 4\n",
+               (0, 0, 0, 0), (2, 1, 1))
+NEARDEG_KEY = "value: term weight lost for nearly coinciding poles, model=two-site t=3e-9 U=1 symm=ignore quad=0000 triple=(2,1,1)"
 
 
 def probe_vanishing(chk, h, d):
@@ -386,7 +419,7 @@ def probe_vanishing(chk, h, d):
         chk.case("VAN %s %s" % (text, " ".join(t[1:6])), "vanishing-corpus purge=%s tablesize=%s" % (t[5], t[8]), nontrivial=True,
                  sample={"corpus": "vanishing component", "record": " ".join(t)})
         if t[6] == "1" and int(t[8]) != 1:
-            chk.violation("table-length: vanishing component, model=hubbard-atom quad=0011 nfreq=1",
+            chk.violation(VANISHING_KEY,
                           "TwoParticleGF::compute(clear=%s, freqs) of a vanishing component returns a table of length %s for 1 frequency triple; "
                           "on-demand evaluation returns %s for that triple (TwoParticleGF.cpp: the table is sized inside `if (!Vanishing)`)"
                           % (t[5], t[8], t[9]),
@@ -395,6 +428,28 @@ def probe_vanishing(chk, h, d):
             break
     if rc != 0 or not recs:
         chk.tie_broken("vanishing probe", "harness rc=%d %s" % (rc, err[-300:]))
+
+
+def probe_near_degenerate(chk, h, d):
+    """corpus case (minimised): two levels 6e-9 apart reached by the same operator; weight is lost in the term lists"""
+    fam, text, qd, tr = NEARDEG_MIN
+    s = Scn(fam, text, 4, {"straddle": 6e-9}, [qd], [tr], [], "real")
+    r = single_value(s, qd, tr, h, d)
+    if r is None:
+        chk.tie_broken("near-degenerate probe", "could not be evaluated")
+        return
+    a, b, tol = r
+    chk.case("ND " + text, "near-degenerate-corpus %s" % ("agrees" if abs(a - b) <= tol else "differs"), nontrivial=True,
+             sample={"corpus": "near-degenerate levels", "impl": str(a), "oracle": str(b), "tolerance": tol})
+    if abs(a - b) > tol:
+        chk.violation(NEARDEG_KEY,
+                      "two sites with equal levels and hopping 3e-9 (levels 6e-9 apart), U=1 on one site, symmetries ignored: chi_0000(2,1;1) = %s, the documented "
+                      "definition gives %s (|diff| %.3g, tolerance %.3g incl. the 1e-8 pole merging): terms are lost in TermList::add_term when the reduced term, "
+                      "whose poles move to the weighted mean, is equivalent to another stored term and std::set::insert refuses it"
+                      % (a, b, abs(a - b), tol),
+                      {"harness": "h_c02", "variant": "real", "family": fam, "scenario": text, "quad": list(qd), "triple": list(tr),
+                       "impl": str(a), "oracle": str(b), "tolerance": tol, "model": "PV.ChiProofs.chi_termlist_loss_witness",
+                       "proposed_fix": "proposed/fix-termlist-refused-insert.diff"})
 
 
 def probe_empty_ubsan(chk):
@@ -421,7 +476,7 @@ def probe_empty_ubsan(chk):
 def report(chk, first, h, d):
     if "tablelen" in first:
         s, qd, tr, clear, tsize, van = first["tablelen"]
-        chk.violation("table-length: %s" % ("vanishing component" if van else "non-vanishing component"),
+        chk.violation(VANISHING_KEY if van else "table-length: non-vanishing component",
                       "family %s quad %r: compute(clear=%d, %d frequencies) returned a table of length %d" % (s.fam, qd, clear, len(s.triples), tsize),
                       replay_obj(s, qd, tr, {"clear": clear, "observed_table_length": tsize}))
     if "value" in first:
@@ -434,6 +489,14 @@ def report(chk, first, h, d):
                       "family %s quad %r (%s) frequencies %r (resonance pattern %s): TwoParticleGF returns %s, the documented definition gives %s (|diff| %.3g, tolerance %.3g)"
                       % (s.fam, qd, idxpat(qd), tr, pat, r[0], r[1], abs(r[0] - r[1]), r[2]),
                       replay_obj(t, qd, [str(x) for x in tr], {"impl": str(r[0]), "oracle": str(r[1]), "tolerance": r[2], "unshrunk_scenario": s.text}))
+    if "value-nosep" in first:
+        s, qd, tr, ond, orc, tol = first["value-nosep"]
+        chk.violation(NEARDEG_KEY,
+                      "family %s quad %r (%s) frequencies %r: TwoParticleGF returns %s, the documented definition gives %s (|diff| %.3g, tolerance %.3g); "
+                      "the poles of this component violate the separation hypothesis of chi_termlist_no_loss (some are between 1e-8/4 and 2e-8 apart): "
+                      "terms are lost in TermList::add_term" % (s.fam, qd, idxpat(qd), tr, ond, orc, abs(ond - orc), tol),
+                      replay_obj(s, qd, [str(x) for x in tr], {"impl": str(ond), "oracle": str(orc), "tolerance": tol,
+                                                               "proposed_fix": "proposed/fix-termlist-refused-insert.diff"}))
     if "table" in first:
         s, qd, tr, clear, tab, ond = first["table"]
         chk.violation("table: entry differs from on-demand evaluation",
@@ -495,6 +558,7 @@ def run(chk):
     first = {}
     # corpus first
     probe_vanishing(chk, h, d)
+    probe_near_degenerate(chk, h, d)
     probe_empty_ubsan(chk)
     scs = generate(chk, "real", QUICK_FAMILIES if quick else QUICK_FAMILIES + THOROUGH_EXTRA, 6 if quick else 10, 8 if quick else 14)
     if not quick:
